@@ -63,7 +63,8 @@ RULE = ("case = (object spec, mode), or a history of <= 3 (colored | no_color, o
         "Non-trivial: the output has more than one line, or a threshold quantity of the object (offset + one-line "
         "length; indent + run length) lies inside its sweep window.")
 ASSUMPTIONS = [
-    "strings contain no quote, apostrophe, backslash or control character (property domain); printable ASCII plus 'é'",
+    "strings contain no quote, apostrophe, backslash or control character (property domain); printable ASCII, BMP non-ASCII letters (é ß ж 中, U+00A0, U+FFFD, U+FFFF) and non-BMP characters (U+1F600, "
+    "U+20000, U+1D49C) in values and keys",
     "dict keys are str (JSON mode) or str/int (Python mode); bool/None/float keys and keys equal across types are outside the domain",
     "floats are finite",
     "the no-color output is str(result) / str(line) (equal to plain_text() for a no-color palette); a colored "
@@ -76,7 +77,7 @@ ASSUMPTIONS = [
 ]
 REQUIRED_FEATURES = [
     "mode:json", "mode:python", "keys:str", "keys:int+str", "keys:unsorted-insertion",
-    "leaf:str", "leaf:int", "leaf:negative", "leaf:float", "leaf:bool", "leaf:none", "leaf:empty-list",
+    "leaf:str", "leaf:str-non-ascii", "leaf:str-non-bmp", "keys:non-bmp", "leaf:int", "leaf:negative", "leaf:float", "leaf:bool", "leaf:none", "leaf:empty-list",
     "leaf:empty-dict", "nest:depth3", "offset:0", "offset:2", "offset:4", "offset:6",
     "thr200:199", "thr200:200", "thr200:201", "thr150:149", "thr150:150", "thr150:151",
     "sweep:list-element", "sweep:dict-value", "sweep:dict-key", "sweep:count",
@@ -529,7 +530,7 @@ def _report(acc, v, case):
 def _params(tier):
     if tier == "thorough":
         return {
-            "A_nodes": 6, "A_leaves": ["a, b", 7, -2.5, True, None, [], {"D": []}],
+            "A_nodes": 6, "A_leaves": ["a, é\U0001F600", 7, -2.5, True, None, [], {"D": []}],
             "E": [7, None, False, "ab", [], {"s": 46}, {"s": 98}, {"s": 151}],
             "K": 4, "E5": [7, {"s": 46}, {"s": 98}],
             "Edict": [7, None, "ab", [], {"s": 58}, {"s": 118}], "Kdict": 3,
@@ -540,7 +541,7 @@ def _params(tier):
             "sweep_kinds": ["s", "i"], "count_max": 260,
         }
     return {
-        "A_nodes": 5, "A_leaves": ["a, b", 7, -2.5, True, None, [], {"D": []}],
+        "A_nodes": 5, "A_leaves": ["a, é\U0001F600", 7, -2.5, True, None, [], {"D": []}],
         "E": [7, None, "ab", {"s": 46}, {"s": 98}, {"s": 151}],
         "K": 4, "E5": [],
         "Edict": [7, None, "ab", {"s": 58}, {"s": 118}], "Kdict": 3,
@@ -555,7 +556,11 @@ COUNT_PATTERNS = [[7], [None], ["ab"], [7, None], [True, "x", 2.5], [[], {"D": [
 SCALARS = [0, 1, -1, 7, 12345678901234567890, -98765432109876543210, 0.0, -0.0, 2.5, -2.5, 0.1, 1 / 3,
            0.30000000000000004, 1e+22, 1.5e+300, -1e-07, 5e-324, 123456789.125, True, False, None,
            "", "a", "é", " lead", "trail ", "a, b", "[1, 2]", "{x: 1}", "null", "None", "1", "#", "a: b",
-           [], {"D": []}, {"s": 197}, {"s": 198}, {"s": 300}]
+           [], {"D": []}, {"s": 197}, {"s": 198}, {"s": 300},
+           # BMP non-ASCII and non-BMP characters (emoji, CJK extension B, mathematical letters): in the domain,
+           # the statement excludes only quote, backslash and control characters
+           "ß", "ж", "中", "éßж中", "\U0001F600", "\U00020000", "\U0001D49C", "status \U0001F600",
+           "\U0001F600\U00020000\U0001D49C", "a\U0001F600b, \U0001D49C: [中]", "\uFFFD", "\u00A0x", "\uFFFF"]
 LONG_CASES = [("L", 7, 150), ("L", 7, 400), ("L", "ab", 120), ("L", None, 260), ("L", {"s": 30}, 20),
               ("D", 7, 60), ("D", {"s": 30}, 15), ("D", None, 100)]
 
@@ -591,7 +596,7 @@ def wrap(ctx, x):
 
 
 # ------------------------------------------------------------------------------------------ family A
-A_KEYS = {"str": ["b", "10", "2"], "mixed": ["b", 10, 2]}
+A_KEYS = {"str": ["b\U0001F600", "10", "2"], "mixed": ["ж\U00020000", 10, 2]}
 
 
 def _compositions(total, parts):
@@ -705,6 +710,8 @@ def _leaf_features(obj, feats):
                     feats.add("keys:str")
                 elif any(isinstance(k, int) for k in ks):
                     feats.add("keys:int+str" if any(isinstance(k, str) for k in ks) else "keys:int")
+                if any(isinstance(k, str) and any(ord(ch) > 0xFFFF for ch in k) for k in ks):
+                    feats.add("keys:non-bmp")
                 if len(ks) > 1 and not keys_sorted(ks):
                     feats.add("keys:unsorted-insertion")
             for x in v.values():
@@ -716,6 +723,10 @@ def _leaf_features(obj, feats):
                 walk(x, d + 1)
         elif isinstance(v, str):
             feats.add("leaf:str")
+            if any(ord(ch) > 0xFFFF for ch in v):
+                feats.add("leaf:str-non-bmp")
+            elif any(ord(ch) > 127 for ch in v):
+                feats.add("leaf:str-non-ascii")
         elif v is None:
             feats.add("leaf:none")
         elif isinstance(v, bool):
@@ -928,7 +939,9 @@ def _run_S(p, acc):
         # as a dict key: strings in both modes, ints in Python mode
         if isinstance(sc, str) or (isinstance(sc, dict) and "s" in sc):
             for mode in ("json", "py"):
-                _one(acc, {"D": [["zz", 1], [build(sc), 2]]}, mode, {"scalar:special", "keys:str"})
+                kf = {"scalar:special"}
+                _leaf_features({"zz": 1, build(sc): 2}, kf)
+                _one(acc, {"D": [["zz", 1], [build(sc), 2]]}, mode, kf)
         elif isinstance(sc, int) and not isinstance(sc, bool):
             _one(acc, {"D": [["zz", 1], [sc, 2], [5, 3]]}, "py", {"scalar:special", "keys:int+str"})
 
